@@ -3,6 +3,7 @@ package main
 import (
 	"fmt"
 	"math/rand"
+	"os"
 	"regexp"
 	"strings"
 
@@ -167,6 +168,12 @@ func staticCheck(prop string, salt int, families []string, nProgQ, nProgT, nMutQ
 		}
 		if len(c.Samples) < 4 && m.m != nil && m.v.Kind == typing.Reject && len(m.text) < 900 {
 			c.Sample(map[string]interface{}{"mutation": m.m.Desc, "reference": m.v.String(), "grits": clip(m.o.Res.TcErr+m.o.Res.ParseErr, 160), "program": m.text})
+		}
+	}
+	if prop == "C06" {
+		if b, err := os.ReadFile("/verif/known/K1.grits"); err == nil {
+			o := pool.Run([]sup.Job{{Kind: "typecheck", Text: string(b)}}, nil)[0]
+			c.PinnedWitness("K1", o.Res != nil && o.Res.TcOK, "accepts a program that breaks mode independence: independence@top (pinned witness)", map[string]interface{}{"program": string(b)})
 		}
 	}
 	c.Extra["cases_by_mutation_operator"] = byOp
